@@ -55,13 +55,17 @@ let run_kind (read : Machine.mode -> n list -> TexCommon.texture list Machine.ou
     match toks with
     | "ref" :: file :: _n :: rest ->
       let f = parse_b file in
-      let c = if chk f (texs_of rest) then "1" else "0" in
+      let texs = texs_of rest in
+      (* the list-based decoders are quadratic: textures above 4096 pixels are left to the implementation + oracle *)
+      if List.exists (fun (t : TexCommon.tex) -> int_of_n t.TexCommon.t_w * int_of_n t.TexCommon.t_h > 4096) texs then "skip"
+      else
+      let c = if chk f texs then "1" else "0" in
       "conforms=" ^ c ^ " " ^ show (read m f)
     | ["full"; file] -> show (read m (parse_b file))
     | "cut" :: file :: rest ->
       let f = parse_b file in
       let len = List.length f in
-      let (lo, hi) = (match rest with [a; b] -> (int_of_string a, int_of_string b) | _ -> (0, len)) in
+      let (lo, hi) = (match rest with a :: b :: _ -> (int_of_string a, int_of_string b) | _ -> (0, len)) in
       let hi = min hi (len + 1) in
       let rec ks k = if k >= hi then [] else k :: ks (k + 1) in
       rle (List.map (fun k -> cls (show (read m (take k f)))) (ks lo))
